@@ -1,5 +1,7 @@
 """C04 — Derived products and quotients preserve the physical value."""
-from world import amounts, specials
+from fractions import Fraction
+
+from world import amounts, specials, enc_frac
 
 ID = "C04"
 LEAN_MODULES = ["QtyModel.Props.C04", "QtyModel.Props.C04RoundTrip", "QtyModel.Props.Backends", "QtyModel.Props.OracleSound", "QtyModel.Props.TieTemplates", "QtyModel.Props.OracleSoundC04", "QtyModel.Props.Bridge2"]
@@ -27,6 +29,16 @@ def gen(w, rng, tier):
                     if rng.chance(1, 12):
                         lb, b = rng.choice(specials(w.be))
                     ops.append((f"d{op}:{la}:{lb}", f"d{op} {l} {r} {o} {i} {a} {j} {b}"))
+                if l == r and i == j:
+                    la, a = rng.choice(amounts(w.be, rng, 2))
+                    ops.append((f"d{op}:same-object:{la}", f"d{op} {l} {r} {o} {i} {a} {j} {a}"))
+                if l == r and i != j:
+                    # the two operands of a square are the SAME magnitude written in two units (1 km * 1000 m):
+                    # values that compare equal although amounts and units differ
+                    si, sj = tl["units"][i]["scale_val"], tr["units"][j]["scale_val"]
+                    if si and sj:
+                        k = Fraction(rng.below(999) + 1, [1, 10, 1000][rng.below(3)])
+                        ops.append((f"d{op}:same-magnitude", f"d{op} {l} {r} {o} {i} {enc_frac(w.be, k)} {j} {enc_frac(w.be, k * si / sj)}"))
     # two-step chains: (x * y) / y and (x / y) * y wherever the declarations provide both operators;
     # the second step runs on what the implementation returned for the first
     ds = set(w.derived())
